@@ -142,8 +142,7 @@ def chain_walk(run, F, PV, C):
     valid = [l for l in loops if any(ivc is x for x in ast.walk(l))]
     climb = [l for l in loops if l not in valid and any(isinstance(x, ast.Attribute) and x.attr == "signed_by" for x in ast.walk(l))]
     vfors = [n for n in A.own_nodes(fn) if isinstance(n, ast.For) and n is not tloop and any(n is x for x in ast.walk(tloop)) and any(ivc is x for x in ast.walk(n))
-             and isinstance(n.iter, ast.Call) and norm(n.iter.func) == "reversed" and len(n.iter.args) == 1 and isinstance(n.iter.args[0], ast.Name)
-             and isinstance(n.target, ast.Name)]
+             and _path_iter(n.iter) is not None and isinstance(n.target, ast.Name)]
     if not valid and len(climb) == 1 and len(vfors) == 1:
         # the other common shape: the whole path is collected in a list (top element included) and verified with `for e in reversed(path)`
         RES = _chain_walk_list(run, fn, g, C, tloop, TGT, ivc, climb[0], vfors[0], root_param)
@@ -300,11 +299,24 @@ def chain_walk(run, F, PV, C):
     _chain_walk_state(run, fn, tloop, RES)
 
 
+def _path_iter(e):
+    """`for x in <e>` over the path list: (list name, visits it back to front?)"""
+    if isinstance(e, ast.Call) and norm(e.func) == "reversed" and len(e.args) == 1 and isinstance(e.args[0], ast.Name) and not e.keywords:
+        return e.args[0].id, True
+    if isinstance(e, ast.Subscript) and isinstance(e.value, ast.Name) and norm(e.slice) == "::-1":
+        return e.value.id, True
+    if isinstance(e, ast.Name):
+        return e.id, False
+    return None
+
+
 def _chain_walk_list(run, fn, g, C, tloop, TGT, ivc, climb, vfor, root_param):
-    """The chain walk written over a list holding the whole path: target element first, the element signed by the root last."""
+    """The chain walk written over a list holding the whole path: target element first, the element signed by the root last; verified from
+    the root's side, i.e. visiting the list back to front, or front to back after one `list.reverse()` between the loops."""
     P, A = run.P, run.A
     from sa.decide import subst
-    X, Y, L = vfor.target.id, ivc.args[0].id, vfor.iter.args[0].id
+    X, Y = vfor.target.id, ivc.args[0].id
+    L, backwards = _path_iter(vfor.iter)
     run.require(isinstance(ivc.func.value, ast.Name) and ivc.func.value.id == X, "validate_and_get_values: is_valid is not called on the element the loop visits (idiom not understood)")
     ch, ca = _while_nodes(g, climb)
     run.require(ch is not None, "validate_and_get_values: climb loop structure not understood")
@@ -385,12 +397,12 @@ def _chain_walk_list(run, fn, g, C, tloop, TGT, ivc, climb, vfor, root_param):
                   key="validate_and_get_values|current_certifier|root-init", where=fn.loc(),
                   message=f"validation of a target starts with certifier `{norm(got) if got is not None else Y + ' (left over from the previous target)'}`, not with the `{root_param}` parameter")
         lcalls = [norm(v) for k, st, v in lf.effects if k == "expr" and isinstance(v, ast.Call) and isinstance(v.func, ast.Attribute) and is_name(v.func.value, L)]
-        want_calls = [f"{L}.append({CUR})"] if cursor else []
+        want_calls = ([f"{L}.append({CUR})"] if cursor else []) + ([] if backwards else [f"{L}.reverse()"])
         rebound = [nm for nm in ((L, CUR) if cursor else (L,)) if nm in lf.env or nm in lf.bind]
-        run.check("R1", lcalls == want_calls and not rebound, "between the loops the path is completed with the top element (cursor form) and otherwise untouched",
+        run.check("R1", lcalls == want_calls and not rebound, "between the loops the path is completed with the top element (cursor form), put in root-first visiting order, and otherwise untouched",
                   key="validate_and_get_values|handover|untouched", where=fn.loc(),
-                  message=f"between the climb and the validation the path list sees {lcalls} (re-bound: {rebound}); expected {want_calls}: the element signed by the root would be "
-                          "missing from (or twice in) the path that is verified")
+                  message=f"between the climb and the validation the path list sees {lcalls} (re-bound: {rebound}) and is then visited {'back to front' if backwards else 'front to back'}; "
+                          f"expected {want_calls}: the element signed by the root would be missing from (or twice in) the path that is verified, or the path would be verified from the leaf's side")
     # the verdict dict
     rets = [n for n in A.own_nodes(fn) if isinstance(n, ast.Return)]
     run.require(len(rets) == 1 and isinstance(rets[0].value, ast.Name), "validate_and_get_values: does not end in `return <verdict dict>` (idiom not understood)")
@@ -429,16 +441,17 @@ def _chain_walk_list(run, fn, g, C, tloop, TGT, ivc, climb, vfor, root_param):
                           message=f"after an element verified the walk does `{kind}` and stores {[norm(s[1])[:60] for s in sts]}: a target can be reported valid before its own element was verified")
                 run.check("R1", cert is not None and is_name(cert, X), "the verified element becomes the next certifier", key="validate_and_get_values|advance|certifier",
                           where=fn.loc(vfor), message=f"after an element verified the next certifier is `{norm(cert) if cert is not None else Y + ' (unchanged)'}`, not the element just verified")
-    # all elements verified: the verdict is the leaf's value (the leaf is the first element of the path = the last one visited)
+    # all elements verified: the verdict is the leaf's value (the leaf is the first element of the path as built = the last one visited)
+    LEAF = "0" if backwards else "-1"
     for lf in Walker(A, fn, C, lambda e: None, stop_at_for=True).walk(v_done[0], stops={fh[0]}):
         n_cases += 1
         sts = stores(lf)
         kind = "leave" if lf.kind == "stop" and lf.node is fh[0] else f"{lf.kind} at line {lf.node.lineno}"
         okv = kind == "leave" and len(sts) == 1 and norm(sts[0][0].targets[0]) == f"{RES}[{TGT}]" \
-            and norm(sts[0][1]) in (f"(True, {X}.get_value(), {X}.get_tweak())", f"(True, {L}[0].get_value(), {L}[0].get_tweak())")
+            and norm(sts[0][1]) in (f"(True, {X}.get_value(), {X}.get_tweak())", f"(True, {L}[{LEAF}].get_value(), {L}[{LEAF}].get_tweak())")
         run.check("R1", okv, "[every element verified] -> (True, value, tweak) of the leaf", key="validate_and_get_values|valid-store", where=fn.loc(vfor),
                   message=f"when every element of the path verified the walk does `{kind}` and stores {[norm(s[1])[:70] for s in sts]}; it must store (True, <leaf>.get_value(), "
-                          f"<leaf>.get_tweak()) with the leaf = {L}[0] (= the last element visited)")
+                          f"<leaf>.get_tweak()) with the leaf = {L}[{LEAF}] (= the last element visited)")
     run.floor("R1", "decision-table cases of the two loops", n_cases, 5)
     return RES
 
